@@ -38,6 +38,8 @@ def make_spec(kind, spec_text, vars_, pastify=False, unit=None, consts=(), io=No
     s.parse()
     if pastify:
         s.pastify()
+        if pastify == 'twice':
+            s.pastify()
     return s
 
 
